@@ -68,7 +68,8 @@ pub fn slice_a_run<S: Sch>(rec: &mut Rec, dmax: usize) {
         let keys = match build_keys::<S>(&cfg, rec.seed) {
             Ok(k) => k,
             Err(o) => {
-                fail(rec, S::NAME, "trim", "valid-config", &cfg.id(), format!("setup/trim of a valid configuration failed: {}", o.short()));
+                let first = todo[0].0.clone();
+                fail(rec, S::NAME, "trim", "valid-config", &first, format!("setup/trim of a valid configuration failed: {}", o.short()));
                 continue;
             }
         };
@@ -131,10 +132,15 @@ pub fn all_queries<S: Sch>(polys: &[LP<S>], labels: &[(String, S::Pt)]) -> Vec<(
 
 pub fn slice_b_run<S: Sch>(rec: &mut Rec) {
     let cfg = slice_b::<S>();
+    // the set-up of the slice is a point of its own, so that a failure is reported once and replays
+    let setup_id = format!("{}/B/setup/{}", S::NAME, cfg.id());
+    let report = rec.take(&setup_id);
     let keys = match build_keys::<S>(&cfg, rec.seed) {
         Ok(k) => k,
         Err(o) => {
-            fail(rec, S::NAME, "trim", "slice-B", &cfg.id(), format!("setup/trim failed: {}", o.short()));
+            if report {
+                fail(rec, S::NAME, "trim", "slice-B", &setup_id, format!("setup/trim failed: {}", o.short()));
+            }
             return;
         }
     };
@@ -143,7 +149,9 @@ pub fn slice_b_run<S: Sch>(rec: &mut Rec) {
     let c = match commit_set::<S>(&keys, polys, rec.seed, 0) {
         Ok(c) => c,
         Err(o) => {
-            fail(rec, S::NAME, "commit", "slice-B", &cfg.id(), format!("commit of the slice-B set failed: {}", o.short()));
+            if report {
+                fail(rec, S::NAME, "commit", "slice-B", &setup_id, format!("commit of the slice-B set failed: {}", o.short()));
+            }
             return;
         }
     };
